@@ -88,6 +88,28 @@ def clipped_paraboloid(epd=20.0, rmax=8.0, wavelengths=(0.55,)):
     return o
 
 
+def vignetted_singlet(wavelengths=(0.55,)):
+    """Front-stop singlet with a clear aperture well behind it that passes the axial beam and
+    clips part of the 6 degree beam: the fields of one lens transmit different pupil fractions."""
+    from optiland.optic import Optic
+    from optiland.materials import IdealMaterial
+    from optiland.physical_apertures import RadialAperture
+    o = Optic()
+    o.add_surface(index=0, thickness=np.inf)
+    o.add_surface(index=1, thickness=2.0, is_stop=True)
+    o.add_surface(index=2, radius=50.0, thickness=4.0, material=IdealMaterial(n=1.5, k=0))
+    o.add_surface(index=3, radius=-50.0, thickness=30.0)
+    o.add_surface(index=4, thickness=19.0, aperture=RadialAperture(r_max=3.0))
+    o.add_surface(index=5)
+    o.set_aperture("EPD", 10.0)
+    o.set_field_type("angle")
+    o.add_field(y=0.0)
+    o.add_field(y=6.0)
+    for i, w in enumerate(wavelengths):
+        o.add_wavelength(w, is_primary=(i == 0))
+    return o
+
+
 def uv_projection(wavelengths=None):
     """Bundled finite-conjugate sample whose exit pupil lies behind the image (negative signed
     pupil magnification): the working F-number there differs most from naive formulas."""
@@ -279,10 +301,12 @@ def _dl_indices(N, H):
     return ks
 
 
-def record_fftmtf(optic, field, wl, N, Gs, pupil=True, ideal=False, view=True):
-    """FFTMTF(...) for one field -> event; the x-data is read from the curves view() draws."""
+def record_fftmtf(optic, field, wl, N, Gs, pupil=True, ideal=False, view=True, others=()):
+    """FFTMTF(...) for one field -> event; the x-data is read from the curves view() draws.
+    others: further fields analysed by the same FFTMTF object (the judged curves are those of
+    `field`: they must not depend on what else was asked for)."""
     from optiland.mtf import FFTMTF
-    m = G.quiet(FFTMTF, optic, [field], wl, N, Gs)
+    m = G.quiet(FFTMTF, optic, [field] + list(others), wl, N, Gs)
     tan = np.asarray(m.mtf[0][0], float)
     sag = np.asarray(m.mtf[0][1], float)
     H = Gs - Gs // 2          # samples at the non-negative frequencies (Gs may be odd)
